@@ -12,13 +12,19 @@ R01.7 the configured tolerances / grid sizes reach the constructors of the solve
 
 Locals are identified by their role (what is assigned to them, which argument position of a known API call they fill), never by
 their spelling; expressions are compared through normal forms (nf.py) that look through temporaries and simple extracted helpers.
+Structure is normalised before it is analysed (`normalised`): a `for` over a literal tuple / list of cases (also zip / enumerate of
+literals) is written out case by case, a call statement of a small procedure and a call of a helper that only chooses between values
+by if / else are replaced by their bodies when they contain one of the calls the rules anchor in.  Elements of a pressure evaluation
+may be stored by unpacking (`p, w, b, bg, h = ev`) or by indexing (`w = ev[1]`) (`_projection`); a conditional expression is a
+two-way branch (`_tuple_sources`, `_value_sources`, `_label_of`).
 """
 from __future__ import annotations
 
 import ast
+import copy
 from fractions import Fraction
 
-from ..core import AnchorMissing, Check, Undecided, attr_stores, calls_in, dotted, kwarg, own_nodes, src, walk_guarded
+from ..core import AnchorMissing, Check, FuncInfo, Undecided, attr_stores, calls_in, dotted, kwarg, own_nodes, src, walk_guarded
 from ..flow import CFG, reads_of
 from ..hydro import n
 from ..nf import Ctx, P, eqx, has, ids_in, match, nf, parse_pattern, same
@@ -33,6 +39,360 @@ CACHED_AT = {"wallPressureResultsMax": "wallVelocityMax", "wallPressureResultsMi
 
 
 # ------------------------------------------------------------------------------------------------ spelling-independent helpers
+
+
+# ------------------------------------------------------------------------------------------------ structural normalisation
+# A maintainer may merge copy-pasted blocks into one `for` over a literal tuple of cases, or move a block of statements into a small
+# procedure.  Neither changes the sequence of calls that is executed.  `normalised` writes such code out again -- one copy of the loop
+# body per case with the loop variables substituted; the body of the procedure in place of the call statement with the arguments
+# substituted -- so that the CFG / pattern based rules see the same statements whichever way the code is folded.
+
+
+def _chain(defs: dict, e):
+    for _ in range(8):
+        if isinstance(e, ast.Name) and e.id in defs:
+            e = defs[e.id]
+        else:
+            break
+    return e
+
+
+def _int_const(e):
+    if isinstance(e, ast.Constant) and isinstance(e.value, int) and not isinstance(e.value, bool):
+        return e.value
+    if isinstance(e, ast.UnaryOp) and isinstance(e.op, ast.USub):
+        v = _int_const(e.operand)
+        return -v if v is not None else None
+    return None
+
+
+def _literal_cases(it, defs: dict):
+    """the expressions a `for` statement iterates over when they are written out: a tuple / list display (possibly held in a
+    single-assignment temporary), or zip(...) / enumerate(...) of such displays; None otherwise"""
+    it = _chain(defs, it)
+    if isinstance(it, (ast.Tuple, ast.List)):
+        return None if any(isinstance(e, ast.Starred) for e in it.elts) else list(it.elts)
+    if isinstance(it, ast.Call) and isinstance(it.func, ast.Name) and not any(isinstance(a, ast.Starred) for a in it.args):
+        if it.func.id == "zip" and it.args and all(k.arg == "strict" for k in it.keywords):
+            cols = [_literal_cases(a, defs) for a in it.args]
+            if any(c is None for c in cols) or len({len(c) for c in cols}) != 1:
+                return None
+            return [ast.Tuple(elts=list(row), ctx=ast.Load()) for row in zip(*cols)]
+        if it.func.id == "enumerate" and it.args and len(it.args) + len(it.keywords) <= 2 and all(k.arg == "start" for k in it.keywords):
+            start = kwarg(it, "start", 1)
+            first = 0 if start is None else _int_const(start)
+            col = _literal_cases(it.args[0], defs)
+            if col is None or first is None:
+                return None
+            return [ast.Tuple(elts=[ast.Constant(value=first + i), e], ctx=ast.Load()) for i, e in enumerate(col)]
+    return None
+
+
+def _bind_target(t, e, out: dict) -> bool:
+    if isinstance(t, ast.Name):
+        out[t.id] = e
+        return True
+    if isinstance(t, (ast.Tuple, ast.List)) and isinstance(e, (ast.Tuple, ast.List)) and len(t.elts) == len(e.elts) \
+            and not any(isinstance(x, ast.Starred) for x in list(t.elts) + list(e.elts)):
+        return all(_bind_target(a, b, out) for a, b in zip(t.elts, e.elts))
+    return False
+
+
+def _own_jumps(body) -> bool:
+    """a break / continue that belongs to the loop whose body this is"""
+    stack = list(body)
+    while stack:
+        x = stack.pop()
+        if isinstance(x, (ast.Break, ast.Continue)):
+            return True
+        if isinstance(x, (ast.For, ast.AsyncFor, ast.While)):
+            stack.extend(x.orelse)
+        elif not isinstance(x, (ast.FunctionDef, ast.AsyncFunctionDef, ast.ClassDef, ast.Lambda, ast.expr)):
+            stack.extend(ast.iter_child_nodes(x))
+    return False
+
+
+def _stored_names(nodes) -> set:
+    out = set()
+    for r in nodes:
+        for x in ast.walk(r):
+            if isinstance(x, ast.Name) and isinstance(x.ctx, (ast.Store, ast.Del)):
+                out.add(x.id)
+            elif isinstance(x, (ast.Global, ast.Nonlocal)):
+                out |= set(x.names)
+            elif isinstance(x, ast.ExceptHandler) and x.name:
+                out.add(x.name)
+            elif isinstance(x, (ast.FunctionDef, ast.AsyncFunctionDef, ast.ClassDef)):
+                out.add(x.name)
+    return out
+
+
+class _Subst(ast.NodeTransformer):
+    """replace reads of the bound names by (copies of) their expressions; a nested function / lambda with a parameter of that name shadows it"""
+
+    def __init__(self, bind: dict):
+        self.bind = bind
+
+    def visit_Name(self, x):
+        if isinstance(x.ctx, ast.Load) and x.id in self.bind:
+            return ast.copy_location(copy.deepcopy(self.bind[x.id]), x)
+        return x
+
+    def _scoped(self, x):
+        a = x.args
+        shadow = {p.arg for p in a.posonlyargs + a.args + a.kwonlyargs} | ({a.vararg.arg} if a.vararg else set()) | ({a.kwarg.arg} if a.kwarg else set())
+        inner = {k: v for k, v in self.bind.items() if k not in shadow}
+        return _Subst(inner).generic_visit(x) if inner else x
+
+    visit_Lambda = visit_FunctionDef = visit_AsyncFunctionDef = _scoped
+
+
+def _pure_path(e) -> bool:
+    """a constant, a local, or an attribute path of a local: substituting it for a name evaluates nothing twice"""
+    return isinstance(e, (ast.Constant, ast.Name)) or (isinstance(e, ast.Attribute) and _pure_path(e.value))
+
+
+# callees the rules of C01 / C10 anchor in by name: a call of one of them is never replaced by its body
+ANCHOR_CALLS = frozenset({
+    "wallPressure", "solveWall", "solveWallDetonation", "setupWallSolver", "findWallVelocityDeflagrationHybrid", "findWallVelocityDetonation", "buildGrid",
+    "buildEOM", "tracePhase", "disableAdaptiveInterpolation", "setExtrapolate", "_initHydrodynamics", "initTemperatureRange", "findPlasmaProfile",
+    "_intermediatePressureResults", "_getNextPressure", "setSuccessState", "setWallVelocities", "setExtrapolationType", "setBackground", *SETTERS})
+
+
+class _Normaliser:
+    MAX_CASES = 8
+
+    def __init__(self, S, fi, keep=ANCHOR_CALLS):
+        self.S, self.fi, self.keep = S, fi, keep
+        self.defs = Ctx(S, fi).local_defs()
+        self.taken = {x.id for x in ast.walk(fi.node) if isinstance(x, ast.Name)} | {a.arg for a in ast.walk(fi.node) if isinstance(a, ast.arg)}
+        self.changed = False
+        self.k = 0
+
+    def fresh(self, base: str) -> str:
+        while True:
+            self.k += 1
+            nm = f"{base}__{self.k}"
+            if nm not in self.taken:
+                self.taken.add(nm)
+                return nm
+
+    def place(self, bind: dict, pre: list, like, direct=None) -> dict:
+        """substitutable binding: a value that is not `direct` (default: a pure path or a display of pure paths) is first stored in a
+        fresh single-assignment local, so that substituting it evaluates nothing twice"""
+        if direct is None:
+            direct = lambda e: _pure_path(e) or (isinstance(e, (ast.Tuple, ast.List)) and all(_pure_path(x) for x in e.elts))
+        out = {}
+        for nm, e in bind.items():
+            if direct(e):
+                out[nm] = e
+            else:
+                tmp = self.fresh(nm)
+                st = ast.Assign(targets=[ast.Name(id=tmp, ctx=ast.Store())], value=copy.deepcopy(e))
+                pre.append(ast.fix_missing_locations(ast.copy_location(st, like)))
+                out[nm] = ast.Name(id=tmp, ctx=ast.Load())
+        return out
+
+    # -- for over literal cases
+    def unroll(self, st):
+        if not isinstance(st, ast.For) or _own_jumps(st.body):
+            return None
+        cases = _literal_cases(st.iter, self.defs)
+        if cases is None or len(cases) > self.MAX_CASES:
+            return None
+        targets = {x.id for x in ast.walk(st.target) if isinstance(x, ast.Name)}
+        if targets & _stored_names(st.body) or any(not isinstance(x, (ast.Name, ast.Tuple, ast.List, ast.Store)) for x in ast.walk(st.target)):
+            return None
+        # the cases are evaluated once, before the first iteration: a body that re-binds a local they read is not written out
+        if {x.id for e in cases for x in ast.walk(_chain(self.defs, e)) if isinstance(x, ast.Name)} & _stored_names(st.body):
+            return None
+        stores_attr = any(isinstance(x, (ast.Attribute, ast.Subscript)) and isinstance(x.ctx, (ast.Store, ast.Del)) for b in st.body for x in ast.walk(b))
+        simple = lambda v: isinstance(v, (ast.Constant, ast.Name)) or (_pure_path(v) and not stores_attr)
+        out: list = []
+        for e in cases:
+            bind: dict = {}
+            if not _bind_target(st.target, _chain(self.defs, e) if not isinstance(st.target, ast.Name) else e, bind):
+                return None
+            bind = self.place(bind, out, st, direct=lambda v: simple(v) or (isinstance(v, (ast.Tuple, ast.List)) and all(simple(x) for x in v.elts)))
+            out += [_Subst(bind).visit(copy.deepcopy(b)) for b in st.body]
+        out += [copy.deepcopy(b) for b in st.orelse]
+        return out or [ast.copy_location(ast.Pass(), st)]
+
+    # -- calls of small functions of the same class / module that contain an anchored call
+    def callee(self, call: ast.Call):
+        """(FuncInfo, body without docstring, {parameter: argument}) of a same-class method / nested / module-level function called here whose body
+        mentions something the rules anchor in; None when the call cannot be bound to it"""
+        fi, f = self.fi, call.func
+        funcs = self.S.modules[fi.module].funcs
+        if isinstance(f, ast.Attribute) and isinstance(f.value, ast.Name) and f.value.id in ("self", fi.cls) and fi.cls:
+            h, method = funcs.get(f"{fi.cls}.{f.attr}"), True
+            if h is not None and f.value.id != "self" and "staticmethod" not in {ast.unparse(d) for d in h.node.decorator_list}:
+                return None
+        elif isinstance(f, ast.Name):
+            h, method = next((funcs[q] for q in (f"{fi.qual}.{f.id}", f"{fi.parent.qual}.{f.id}" if fi.parent else None, f.id) if q and q in funcs), None), False
+        else:
+            return None
+        if h is None or h.name == fi.name or h.qual.split(".")[-1] in self.keep or isinstance(h.node, ast.AsyncFunctionDef):
+            return None
+        a = h.node.args
+        deco = {ast.unparse(d) for d in h.node.decorator_list}
+        if a.vararg or a.kwarg or a.kwonlyargs or a.posonlyargs or deco - {"staticmethod"} or (method and h.cls != fi.cls):
+            return None
+        params = [p.arg for p in a.args]
+        if method and "staticmethod" not in deco:
+            if not params:
+                return None
+            params = params[1:]
+        elif h.cls and not method:
+            return None
+        body = [st for st in h.node.body if not (isinstance(st, ast.Expr) and isinstance(st.value, ast.Constant) and isinstance(st.value.value, str))]
+        if not body or len(body) > 12 or not self.mentions_anchor(h, 0):
+            return None     # (nothing the rules look for can have moved into a function that mentions no anchor: its call is left as it is)
+        if any(isinstance(x, ast.Starred) for x in call.args) or any(k.arg is None for k in call.keywords) or len(call.args) > len(params):
+            return None
+        bind = dict(zip(params, call.args))
+        for k in call.keywords:
+            if k.arg not in params or k.arg in bind:
+                return None
+            bind[k.arg] = k.value
+        for p, d in zip(params[len(params) - len(a.defaults):], a.defaults):
+            bind.setdefault(p, d)
+        if set(params) - set(bind):
+            return None
+        return h, body, bind
+
+    def procedure(self, call: ast.Call):
+        """a call statement of a procedure: its body is a sequence of statements without return value that re-binds no parameter"""
+        got = self.callee(call)
+        if got is None:
+            return None
+        h, body, bind = got
+        if isinstance(body[-1], ast.Return) and (body[-1].value is None or (isinstance(body[-1].value, ast.Constant) and body[-1].value.value is None)):
+            body = body[:-1]
+        if not body:
+            return None
+        for st in body:
+            for x in ast.walk(st):
+                if isinstance(x, (ast.Return, ast.Yield, ast.YieldFrom, ast.Await, ast.FunctionDef, ast.AsyncFunctionDef, ast.ClassDef, ast.Lambda, ast.Global,
+                                  ast.Nonlocal, ast.NamedExpr)) or (isinstance(x, ast.ExceptHandler) and x.name):
+                    return None
+        local = _stored_names(body)
+        if local & set(bind):
+            return None
+        return body, bind, local
+
+    @staticmethod
+    def value_of(body):
+        """the value returned by a body made of if / else statements and returns only, as one (conditional) expression; None for any other body"""
+        if not body:
+            return None
+        st = body[0]
+        if isinstance(st, ast.Return) and st.value is not None:
+            return st.value
+        if isinstance(st, ast.If):
+            a, b = _Normaliser.value_of(st.body + body[1:]), _Normaliser.value_of(st.orelse + body[1:])
+            if a is not None and b is not None and not any(isinstance(x, ast.NamedExpr) for x in ast.walk(st.test)):
+                return ast.copy_location(ast.IfExp(test=st.test, body=a, orelse=b), st)
+        return None
+
+    def inline_value(self, st):
+        """`x = self.helper(args)` / `return self.helper(args)` where the helper only chooses between values by if / else: the call is replaced by
+        the conditional expression it evaluates"""
+        if not (isinstance(st, (ast.Assign, ast.AnnAssign, ast.Return)) and isinstance(st.value, ast.Call)):
+            return None
+        got = self.callee(st.value)
+        if got is None:
+            return None
+        h, body, bind = got
+        v = self.value_of(body)
+        if v is None or any(isinstance(x, (ast.Lambda, ast.Yield, ast.YieldFrom, ast.Await, ast.ListComp, ast.SetComp, ast.DictComp, ast.GeneratorExp)) for x in ast.walk(v)):
+            return None
+        out: list = []
+        bind = self.place(bind, out, st, direct=lambda e: isinstance(e, (ast.Constant, ast.Name)))
+        v = _Subst(bind).visit(copy.deepcopy(v))
+        for x in ast.walk(v):
+            if hasattr(x, "lineno"):
+                ast.copy_location(x, st.value)
+        new = copy.copy(st)
+        new.value = v
+        return out + [new]
+
+    def mentions_anchor(self, h, depth: int) -> bool:
+        """the body of h calls something the rules anchor in, directly or through another function of its module"""
+        funcs = self.S.modules[h.module].funcs
+        for x in own_nodes(h.node):
+            if isinstance(x, ast.Call):
+                short = x.func.attr if isinstance(x.func, ast.Attribute) else x.func.id if isinstance(x.func, ast.Name) else None
+                if short in self.keep:
+                    return True
+                sub = funcs.get(f"{h.cls}.{short}" if isinstance(x.func, ast.Attribute) and h.cls else short) if short else None
+                if sub is not None and sub.name != h.name and depth < 2 and self.mentions_anchor(sub, depth + 1):
+                    return True
+        return False
+
+    def inline(self, st):
+        if not (isinstance(st, ast.Expr) and isinstance(st.value, ast.Call)):
+            return None
+        got = self.procedure(st.value)
+        if got is None:
+            return None
+        body, bind, local = got
+        out: list = []
+        # an argument that is an attribute path stays a path only when the procedure stores no attribute (it could change what the path denotes)
+        stores_attr = any(isinstance(x, (ast.Attribute, ast.Subscript)) and isinstance(x.ctx, (ast.Store, ast.Del)) for b in body for x in ast.walk(b))
+        bind = self.place(bind, out, st, direct=lambda v: isinstance(v, (ast.Constant, ast.Name)) or (_pure_path(v) and not stores_attr))
+        ren = {nm: ast.Name(id=self.fresh(nm), ctx=ast.Load()) for nm in sorted(local)}
+        for b in body:
+            b = copy.deepcopy(b)
+            for x in ast.walk(b):
+                if isinstance(x, ast.Name) and x.id in ren:
+                    x.id = ren[x.id].id
+            b = _Subst(bind).visit(b)
+            for x in ast.walk(b):
+                if hasattr(x, "lineno"):
+                    ast.copy_location(x, st)
+            out.append(b)
+        return out
+
+    # -- traversal
+    def block(self, stmts: list) -> list:
+        out = []
+        for st in stmts:
+            new = self.unroll(st) or self.inline(st) or self.inline_value(st)
+            if new is not None:
+                self.changed = True
+                out += new
+                continue
+            if not isinstance(st, (ast.FunctionDef, ast.AsyncFunctionDef, ast.ClassDef)):
+                for field in ("body", "orelse", "finalbody"):
+                    sub = getattr(st, field, None)
+                    if isinstance(sub, list) and sub and isinstance(sub[0], ast.stmt):
+                        setattr(st, field, self.block(sub))
+                for h in getattr(st, "handlers", []) or []:
+                    h.body = self.block(h.body)
+            out.append(st)
+        return out
+
+
+_NORMALISED: dict = {}
+
+
+def normalised(S, fi) -> FuncInfo:
+    """fi with its loops over literal cases unrolled and its calls of simple procedures inlined (fi itself when there are none)"""
+    key = (id(S), id(fi.node))
+    if key in _NORMALISED:
+        return _NORMALISED[key][1]
+    cur = fi
+    for _ in range(4):
+        nz = _Normaliser(S, cur)
+        node = copy.deepcopy(cur.node)
+        node.body = nz.block(node.body)
+        if not nz.changed:
+            break
+        ast.fix_missing_locations(node)
+        cur = FuncInfo(fi.module, fi.qual, node, fi.cls, fi.parent)
+    _NORMALISED[key] = (fi.node, cur)
+    return cur
 
 
 def _assigns(fnode) -> list:
@@ -105,12 +465,26 @@ def _relations(e, cx: Ctx | None = None) -> set:
 
 
 def _holds_under(g: CFG, node, relations, cx: Ctx) -> bool:
-    """`node` is reached only through the branch of a test on which all `relations` (pattern texts) hold"""
-    want = {P(r, cx) for r in relations}
+    """`node` is reached only through the branch of a test on which all `relations` (pattern texts) hold.  The test is read as written and
+    with its temporaries looked through; in the latter case the temporaries named in the patterns are looked through in the same way"""
+    pats = [parse_pattern(r) for r in relations]
+    want = {nf(p, cx) for p in pats}
+
+    def at_line(p, t):
+        p = copy.deepcopy(p)
+        for x in ast.walk(p):
+            if isinstance(x, (ast.expr, ast.stmt)):
+                x.lineno = getattr(t, "lineno", None)
+        return p
+
     for t, pol in _dominating_tests(g, node):
-        e, pol = _positive(t, pol, cx)
-        if pol and want <= _relations(e, cx):
-            return True
+        for resolver in (None, cx):
+            e, p2 = _positive(t, pol, resolver)
+            if not p2:
+                continue
+            got = _relations(e, cx)
+            if want <= got or (resolver is not None and {nf(cx.resolve(at_line(p, t)), cx) for p in pats} <= got):
+                return True
     return False
 
 
@@ -166,9 +540,11 @@ def _wallpressure_call(v) -> bool:
 
 def _tuple_sources(g: CFG, at, v, depth: int = 0) -> list:
     """where a 5-tuple of pressure results comes from: ('call', wallPressure call) | ('param', name) | ('other', text); looks through
-    plain copies / temporaries by reaching definitions"""
+    plain copies / temporaries by reaching definitions; a conditional expression has the sources of both arms"""
     if _wallpressure_call(v):
         return [("call", v)]
+    if isinstance(v, ast.IfExp) and depth < 4:
+        return _tuple_sources(g, at, v.body, depth + 1) + _tuple_sources(g, at, v.orelse, depth + 1)
     if isinstance(v, ast.Name) and depth < 4:
         out = []
         for d in g.reaching_defs(at, v.id):
@@ -180,6 +556,56 @@ def _tuple_sources(g: CFG, at, v, depth: int = 0) -> list:
                 out.append(("other", n(d)[:60]))
         return out
     return [("other", n(v)[:60])]
+
+
+def _value_sources(g: CFG, at, v, depth: int = 0) -> list:
+    """the expressions whose value `v` (evaluated at CFG node `at`) may hold, looking through plain copies `a = b` by reaching definitions
+    and through both arms of a conditional expression; None stands for a value that is not assigned in this function (a parameter)"""
+    if isinstance(v, ast.IfExp) and depth < 4:
+        return _value_sources(g, at, v.body, depth + 1) + _value_sources(g, at, v.orelse, depth + 1)
+    if isinstance(v, ast.Name) and depth < 4:
+        out = []
+        for d in g.reaching_defs(at, v.id):
+            if d is not CFG.ENTRY and isinstance(d, (ast.Assign, ast.AnnAssign)) and isinstance(_target(d), ast.Name) and d.value is not None \
+                    and (isinstance(d, ast.AnnAssign) or len(d.targets) == 1):
+                out += _value_sources(g, d, d.value, depth + 1)
+            else:
+                out.append(None)
+        return out
+    return [v]
+
+
+def _projection(d, length: int | None = None):
+    """(tuple-valued expression T, {position: local}) when statement d stores elements of T in locals: the unpacking `a, b, c = T` or the
+    indexing `x = T[i]` with an integer literal i (a negative i needs the known `length` of T); None for any other statement"""
+    def index(v):
+        i = _int_const(v.slice) if isinstance(v, ast.Subscript) else None
+        if i is not None and i < 0 and length is not None:
+            i += length
+        return None if i is None or i < 0 or (length is not None and i >= length) else i
+
+    if isinstance(d, ast.Assign) and len(d.targets) == 1 and isinstance(d.targets[0], (ast.Tuple, ast.List)):
+        elts = d.targets[0].elts
+        if any(isinstance(e, ast.Starred) for e in elts):
+            return None
+        if isinstance(d.value, (ast.Tuple, ast.List)) and len(d.value.elts) == len(elts) and elts and all(isinstance(e, ast.Name) for e in elts) \
+                and all(index(v) is not None and same(v.value, d.value.elts[0].value) for v in d.value.elts) \
+                and not {e.id for e in elts} & ids_in(d.value.elts[0].value):
+            # the parallel assignment `a, b = T[i], T[j]`
+            return d.value.elts[0].value, {index(v): e.id for e, v in zip(elts, d.value.elts)}
+        if length is not None and len(elts) != length:
+            return None
+        return d.value, {i: e.id for i, e in enumerate(elts) if isinstance(e, ast.Name)}
+    if isinstance(d, (ast.Assign, ast.AnnAssign)) and d.value is not None and (isinstance(d, ast.AnnAssign) or len(d.targets) == 1) \
+            and isinstance(_target(d), ast.Name) and isinstance(d.value, ast.Subscript):
+        return (d.value.value, {index(d.value): _target(d).id}) if index(d.value) is not None else None
+    return None
+
+
+def _position(names: dict, nm: str):
+    """the position of local nm in a projection when it occurs exactly once"""
+    pos = [i for i, x in names.items() if x == nm]
+    return pos[0] if len(pos) == 1 else None
 
 
 def _velocity_of(source, cx: Ctx) -> str:
@@ -209,17 +635,22 @@ class _SolveWall:
 
     def __init__(self, chk: Check):
         S = chk.src
-        self.fs = fs = S.func(f"{EOM}.solveWall")
+        self.fs = fs = normalised(S, S.func(f"{EOM}.solveWall"))
         chk.touch(fs.name)
         self.g = g = CFG(fs.node)
         self.cx = cx = Ctx(S, fs)
         self.R = _result_name(fs)
-        # all tuple sources: unpack of a wallPressure call or of a passed-in tuple
-        self.unpacks = {}
+        # all tuple sources: elements of a wallPressure call or of a passed-in tuple stored in locals (by unpacking or by indexing)
+        self.unpacks = {}       # statement -> {tuple position: local}
+        self.sources = {}
         for x in g.nodes:
-            if isinstance(x, ast.Assign) and isinstance(x.targets[0], ast.Tuple) and len(x.targets[0].elts) == 5 and all(isinstance(e, ast.Name) for e in x.targets[0].elts):
-                self.unpacks[x] = [e.id for e in x.targets[0].elts]
-        self.sources = {d: _tuple_sources(g, d, d.value) for d in self.unpacks}
+            pr = _projection(x, 5)
+            if pr is None:
+                continue
+            ss = _tuple_sources(g, x, pr[0])
+            if not isinstance(_target(x), ast.Name) or any(k != "other" for k, _ in ss):
+                self.unpacks[x] = pr[1]
+                self.sources[x] = ss
         self.vel = {d: {_velocity_of(s_, cx) for s_ in ss} for d, ss in self.sources.items()}
         self.labels = _method_stmts(g, self.R, {"setSuccessState"})
         self.setters = _method_stmts(g, self.R, set(SETTERS))
@@ -227,11 +658,18 @@ class _SolveWall:
         if len(self.setters) < 12 or len(self.velset) < 3:
             raise AnchorMissing("solveWall: result setters not found")
 
+    def exit_setters(self, vs) -> list:
+        """the result setters of the same exit as the setWallVelocities statement vs: a path joins the two statements (in either order)
+        without passing another setWallVelocities"""
+        g = self.g
+        other = lambda q: q in self.velset and q is not vs
+        return [s_ for s_ in self.setters if s_ in g.reachable(vs, avoid=other) or vs in g.reachable(s_, avoid=other)]
+
     def end_pressure(self, which: str) -> set:
         """names of the local holding the pressure at one end of the window: element 0 of the unpacked cached evaluation of that end"""
         out = set()
         for d, ss in self.sources.items():
-            if any(s_ == ("param", which) for s_ in ss):
+            if any(s_ == ("param", which) for s_ in ss) and 0 in self.unpacks[d]:
                 out.add(self.unpacks[d][0])
         return out
 
@@ -255,11 +693,14 @@ def _wallpressure_return_order(chk: Check) -> None:
         for i, e in enumerate(elts):
             for d, nm in _origins(g, ret, e.id):
                 good = False
-                if d is not CFG.ENTRY and isinstance(d, ast.Assign):
-                    v, t = d.value, d.targets[0]
-                    if i < 4 and isinstance(t, ast.Tuple) and isinstance(v, ast.Call) and (eqx(v.func, "self._intermediatePressureResults") or eqx(v.func, "self._getNextPressure")):
-                        names = [x.id if isinstance(x, ast.Name) else None for x in t.elts]
-                        good = nm in names and names.index(nm) == i and names.count(nm) == 1
+                if d is not CFG.ENTRY and isinstance(d, (ast.Assign, ast.AnnAssign)) and d.value is not None:
+                    v, t = d.value, _target(d)
+                    pr = _projection(d)
+                    if i < 4 and pr is not None:
+                        # element i of what an iteration routine returned (stored by unpacking or by indexing the returned tuple)
+                        srcs = _value_sources(g, d, pr[0])
+                        good = _position(pr[1], nm) == i and bool(srcs) and all(
+                            isinstance(s_, ast.Call) and (eqx(s_.func, "self._intermediatePressureResults") or eqx(s_.func, "self._getNextPressure")) for s_ in srcs)
                     elif i == 0 and isinstance(t, ast.Name) and match(_through(g, d, v), "np.mean(__P[-4:])", cx) is not None:
                         good = True
                     elif i == 4 and isinstance(t, ast.Name) and isinstance(cx.resolve(v), ast.Call) and eqx(cx.resolve(v).func, "HydroResults"):
@@ -276,19 +717,13 @@ def r01_1(chk: Check):
     _wallpressure_return_order(chk)
     sw = _SolveWall(chk)
     fs, g, cx, R = sw.fs, sw.g, sw.cx, sw.R
-    others = lambda vs: (lambda q: q in sw.velset and q is not vs)
-
-    def same_exit(vs, s_) -> bool:
-        """a path joins the two statements (in either order) without passing another setWallVelocities"""
-        return s_ in g.reachable(vs, avoid=others(vs)) or vs in g.reachable(s_, avoid=others(vs))
-
     reported = None
     for vs in sw.velset:
         c = vs.value
         v = kwarg(c, "wallVelocity", 0)
         vr = _definition(cx, v) if v is not None else None
         # the setters of the same exit: connected to this setWallVelocities with no other setWallVelocities in between
-        mine = [s_ for s_ in sw.setters if same_exit(vs, s_)]
+        mine = sw.exit_setters(vs)
         sources = set()
         detail = []
         ok = True
@@ -301,9 +736,9 @@ def r01_1(chk: Check):
                 detail.append(f"{s_.value.func.attr}({n(a)}): not from a wallPressure tuple")
                 continue
             for d, nm in org:
-                if sw.unpacks[d].index(nm) != pos or sw.unpacks[d].count(nm) != 1:
+                if _position(sw.unpacks[d], nm) != pos:
                     ok = False
-                    detail.append(f"{s_.value.func.attr}({n(a)}) takes tuple position {sw.unpacks[d].index(nm)}, expected {pos}")
+                    detail.append(f"{s_.value.func.attr}({n(a)}) takes tuple position {_position(sw.unpacks[d], nm)}, expected {pos}")
                 sources |= sw.vel[d]
         finite = not _is_none(vr)
         kind = "finite velocity" if finite else "no velocity"
@@ -347,13 +782,29 @@ def r01_1(chk: Check):
     PMIN, PMAX = sw.end_pressure("wallPressureResultsMin"), sw.end_pressure("wallPressureResultsMax")
     rets = [r for r in gw.nodes if isinstance(r, ast.Return)]
     kinds = {}
+
+    def evaluated_pressure(r, v) -> bool:
+        """v is element 0 of wallPressure(vw, ...): the call indexed in place, or a local that element was stored in"""
+        if isinstance(v, ast.Subscript) and _int_const(v.slice) in (0, -5):
+            tup, at = v.value, r
+        elif isinstance(v, ast.Name):
+            rd = gw.reaching_defs(r, v.id)
+            pr = _projection(rd[0], 5) if len(rd) == 1 and rd[0] is not CFG.ENTRY else None
+            if pr is None or _position(pr[1], v.id) != 0:
+                return False
+            tup, at = pr[0], rd[0]
+        else:
+            return False
+        ss = _tuple_sources(gw, at, tup)
+        return bool(ss) and all(k == "call" and eqx(kwarg(c, "wallVelocity", 0), VW, cw) for k, c in ss)
+
     for r in rets:
         v = cw.resolve(r.value) if r.value is not None else None
         if isinstance(v, ast.Name) and v.id in PMIN:
             kinds.setdefault("min", []).append(r)
         elif isinstance(v, ast.Name) and v.id in PMAX:
             kinds.setdefault("max", []).append(r)
-        elif isinstance(v, ast.Subscript) and eqx(v.slice, "0") and _wallpressure_call(v.value) and eqx(kwarg(v.value, "wallVelocity", 0), VW, cw):
+        elif evaluated_pressure(r, v):
             kinds.setdefault("eval", []).append(r)
         else:
             kinds.setdefault("other", []).append(r)
@@ -376,7 +827,7 @@ def r01_1(chk: Check):
     ok = True
     for names, vel in ((PMAX, "wallVelocityMax"), (PMIN, "wallVelocityMin")):
         for d, lst in sw.unpacks.items():
-            if lst[0] in names:
+            if lst.get(0) in names:
                 for s_ in sw.sources[d]:
                     if s_[0] == "call" and _velocity_of(s_, cx) != vel:
                         ok = False
@@ -425,20 +876,33 @@ def _deton_bracket(S, fd, g: CFG, cx: Ctx, c: ast.Call):
         if eqx(ve, hi) and g.must_pass(e, cp, lambda q: isinstance(q, ast.Assign) and eqx(q, f"{lo} = {hi}")):
             continue
         return False, f"`{rlo}` may hold an evaluation at another velocity than `{lo}`", None
-    # wall-parameter guess: element 1 of the upper evaluation
+    # wall-parameter guess: element 1 of the upper evaluation (stored by unpacking or by indexing that evaluation)
+    def element_of_upper(d):
+        """{position: local} when statement d stores elements of the evaluation at the upper end"""
+        pr = _projection(d, 5) if d is not CFG.ENTRY else None
+        if pr is None or not eqx(pr[0], rhi) or g.reaching_defs(d, rhi) != [ev_hi]:
+            return None
+        return pr[1]
+
     rd = g.reaching_defs(at, guess)
-    if len(rd) != 1 or rd[0] is CFG.ENTRY or not isinstance(rd[0], ast.Assign) or not isinstance(rd[0].targets[0], ast.Tuple) or not eqx(rd[0].value, rhi) \
-            or g.reaching_defs(rd[0], rhi) != [ev_hi]:
+    if len(rd) != 1 or element_of_upper(rd[0]) is None:
         return False, f"`{guess}` is not taken from the evaluation at `{hi}`", None
-    tn = [x.id if isinstance(x, ast.Name) else None for x in rd[0].targets[0].elts]
-    if len(tn) != 5 or tn.index(guess) != 1 or tn[0] is None:
+    if _position(element_of_upper(rd[0]), guess) != 1:
         return False, f"`{guess}` is not element 1 (wall parameters) of that evaluation", None
-    return True, "", tn[0]
+    # the pressure at the upper end: the local(s) holding element 0 of that evaluation when the refinement is reached
+    upper = []
+    for d in g.nodes:
+        names = element_of_upper(d)
+        if names is not None and 0 in names and _position(names, names[0]) == 0 and g.reaching_defs(at, names[0]) == [d] and names[0] not in upper:
+            upper.append(names[0])
+    if not upper:
+        return False, f"the pressure (element 0) of the evaluation at `{hi}` is not held in a local", None
+    return True, "", upper
 
 
 def r01_2(chk: Check):
     S = chk.src
-    fd = S.func(f"{EOM}.findWallVelocityDetonation")
+    fd = normalised(S, S.func(f"{EOM}.findWallVelocityDetonation"))
     chk.touch(fd.name)
     g = CFG(fd.node)
     cx = Ctx(S, fd)
@@ -455,11 +919,12 @@ def r01_2(chk: Check):
     chk.ob("R01.2", fd.where(), "a detonation root is refined on the bracket [vw2, vw3] with the cached evaluations of exactly these two points", ok,
            detail or (n(calls[0])[:160] if calls else ""), key="deton-bracket")
     guard_ok = False
-    if PHI is not None:
+    if PHI:
         at = g.node_of(calls[0])
-        # the pressure at the lower end: the local the upper pressure is shifted into for the next step
-        plo = [b["PLO"] for st in g.nodes if isinstance(st, ast.Assign) for b in [match(st, f"__PLO = {PHI}")] if b is not None]
-        guard_ok = any(_holds_under(g, at, (f"{PHI} >= 0", f"0 >= {p}"), cx) for p in plo)
+        for phi in PHI:
+            # the pressure at the lower end: the local the upper pressure is shifted into for the next step
+            plo = [b["PLO"] for st in g.nodes if isinstance(st, ast.Assign) for b in [match(st, f"__PLO = {phi}")] if b is not None]
+            guard_ok = guard_ok or any(_holds_under(g, at, (f"{phi} >= 0", f"0 >= {p}"), cx) for p in plo)
     chk.ob("R01.2", fd.where(), "that refinement happens only when the pressure changes sign from <= 0 to >= 0 between them", guard_ok, key="deton-sign")
     fm = S.func("manager:WallGoManager.solveWallDetonation")
     chk.touch(fm.name)
@@ -486,16 +951,23 @@ def r01_2(chk: Check):
     chk.floor("R01.2", 4)
 
 
+def _arms(e) -> list:
+    """the values a (nested) conditional expression may take"""
+    return _arms(e.body) + _arms(e.orelse) if isinstance(e, ast.IfExp) else [e]
+
+
 def _label_of(b, cx: Ctx):
     """(text of the solution type, is it certainly not ERROR / possibly ERROR) of a solutionType argument"""
     if b is None:
         return "", False
     r = cx.resolve(b)
-    if isinstance(r, ast.Name):
-        # a computed label: any value ever assigned to the local
-        vals = [st.value for st in own_nodes(cx.fi.node) if isinstance(st, (ast.Assign, ast.AnnAssign)) and st.value is not None and isinstance(_target(st), ast.Name)
-                and _target(st).id == r.id]
-        return "<computed>", any((dotted(cx.resolve(v)) or n(v)).endswith("ERROR") for v in vals)
+    if isinstance(r, (ast.Name, ast.IfExp)):
+        # a computed label: any value ever assigned to the local / any arm of the conditional expression
+        vals = [r]
+        if isinstance(r, ast.Name):
+            vals = [st.value for st in own_nodes(cx.fi.node) if isinstance(st, (ast.Assign, ast.AnnAssign)) and st.value is not None and isinstance(_target(st), ast.Name)
+                    and _target(st).id == r.id]
+        return "<computed>", any((dotted(a) or n(a)).endswith("ERROR") for v in vals for a in _arms(cx.resolve(v)))
     d = dotted(r) or n(r)
     return d.split(".")[-1], d.endswith("ESolutionType.ERROR")
 
@@ -520,7 +992,7 @@ def r01_3(chk: Check):
                 else:
                     chk.ob("R01.3", fi.where(c), "setSuccessState is called with a literal success flag", None, n(c)[:80])
     for q in ("solveWall", "findWallVelocityDetonation"):
-        fi = S.func(f"{EOM}.{q}")
+        fi = normalised(S, S.func(f"{EOM}.{q}"))
         g = CFG(fi.node)
         cx = Ctx(S, fi)
         R = _result_name(fi)
@@ -603,7 +1075,7 @@ def r01_5(chk: Check):
         outside = [f"{fi.qual}" for fi, x in ws if not (fi.cls == "EOM" and fi.qual.split(".")[-1] in (owner, "__init__"))]
         chk.ob("R01.5", "src/WallGo/equationOfMotion.py", f"{flag} is written only by EOM.{owner} (and initialised in __init__)", not outside and bool(ws),
                str(outside), key=f"writers|{flag}")
-        fo = S.func(f"{EOM}.{owner}")
+        fo = normalised(S, S.func(f"{EOM}.{owner}"))
         chk.touch(fo.name)
         g = CFG(fo.node)
         co = Ctx(S, fo)
@@ -638,7 +1110,7 @@ def _unconditional(g: CFG, node) -> bool:
 def r01_6(chk: Check):
     S = chk.src
     # fresh objects per call
-    fsu = S.func("manager:WallGoManager.setupWallSolver")
+    fsu = normalised(S, S.func("manager:WallGoManager.setupWallSolver"))
     chk.touch(fsu.name)
     gs = CFG(fsu.node)
     cs = Ctx(S, fsu)
@@ -666,7 +1138,7 @@ def r01_6(chk: Check):
         ok = len(rets) == 1 and isinstance(v, ast.Call) and eqx(v.func, ctor)
         chk.ob("R01.6", f_.where(), f"{q} returns a newly constructed {ctor}", ok, key=f"ctor|{q}")
     for q in ("solveWall", "solveWallDetonation"):
-        f_ = S.func(f"manager:WallGoManager.{q}")
+        f_ = normalised(S, S.func(f"manager:WallGoManager.{q}"))
         chk.touch(f_.name)
         g = CFG(f_.node)
         setup = set(g.stmts_calling("setupWallSolver"))
@@ -700,7 +1172,7 @@ def r01_6(chk: Check):
     chk.ob("R01.6", "src/WallGo/hydrodynamics.py", "hydrodynamics / thermodynamics methods used by the solver store only the attributes of the closed table "
            f"{sorted(a for _, a in LONG_LIVED_STORES)}", not extra, "; ".join(extra), key="long-lived-stores")
     # the interpolated free energies cannot grow during solving: adaptive updates are disabled before any solver can run
-    fr = S.func("manager:WallGoManager.initTemperatureRange")
+    fr = normalised(S, S.func("manager:WallGoManager.initTemperatureRange"))
     g = CFG(fr.node)
     cr = Ctx(S, fr)
     dis = g.stmts_calling("disableAdaptiveInterpolation")
@@ -818,30 +1290,40 @@ def r01_8(chk: Check):
     compares the wall parameters with exactly the bounds that were handed to the minimiser"""
     S = chk.src
     fm, bounds = minimiser_bounds(S)
-    fi = S.func(f"{EOM}.solveWall")
+    sw = _SolveWall(chk)
+    fi, cx, g = sw.fs, sw.cx, sw.g
     chk.touch(fi.name, fm.name)
-    cx = Ctx(S, fi)
-    g = CFG(fi.node)
+    # the wall parameters of the solution: the local stored by setWallParams together with the reported (finite) velocity
+    finite = [vs for vs in sw.velset if not _is_none(_definition(cx, kwarg(vs.value, "wallVelocity", 0)))]
+    WP = {a.id for vs in finite for s_ in sw.exit_setters(vs) if s_.value.func.attr == "setWallParams" for a in [kwarg(s_.value, "wallParams", 0)] if isinstance(a, ast.Name)}
+    is_params = lambda x, attr: any(has(x, f"{w}.{attr}") for w in WP)
     # success labels that come with a wall velocity (a runaway is reported without velocity and without wall parameters)
-    succ = [c for c in calls_in(fi.node, "setSuccessState") if c.args and eqx(c.args[0], "True") and not (len(c.args) > 1 and has(c.args[1], "ESolutionType.RUNAWAY"))]
+    succ = [c for c in calls_in(fi.node, "setSuccessState") if eqx(kwarg(c, "success", 0), "True", cx) and not has(kwarg(c, "solutionType", 1), "ESolutionType.RUNAWAY", cx)]
     tests = []
     for t in g.nodes:
         if g.kind.get(t) != "test":
             continue
-        tr = cx.resolve(t)
+        tr = cx.resolve(t, keep=WP)
         cmps = [c for c in ast.walk(tr) if isinstance(c, ast.Compare) and len(c.ops) == 1 and isinstance(c.ops[0], (ast.Eq, ast.GtE, ast.LtE))
-                and any(has(x, "wallParams.widths") or has(x, "wallParams.offsets") for x in (c.left, c.comparators[0]))]
+                and any(is_params(x, "widths") or is_params(x, "offsets") for x in (c.left, c.comparators[0]))]
         if cmps:
             tests.append((t, cmps))
-    if len(tests) != 1 or not succ:
+    if not WP or not succ or len(tests) > 1:
         raise AnchorMissing("solveWall: the bound-saturation test / the success labelling not found")
+    if not tests:
+        # the parameters stored in the result are not the ones any test compares with the bounds
+        for key, what in (("same-bounds", "the saturation test compares the wall parameters stored with the reported velocity with the minimiser bounds"),
+                          ("not-success", "a result whose wall parameters saturate the bounds is never labelled a success")):
+            chk.ob("R01.8", fi.where(), what, False, f"no test of solveWall compares the stored wall parameters {sorted(WP)} with the bounds", key=f"saturation|{key}")
+        chk.floor("R01.8", 2)
+        return
     t, cmps = tests[0]
     got = set()
     for c in cmps:
         a, b = c.left, c.comparators[0]
-        if has(b, "wallParams.widths") or has(b, "wallParams.offsets"):
+        if is_params(b, "widths") or is_params(b, "offsets"):
             a, b = b, a
-        role = "widths" if has(a, "wallParams.widths") else "offsets"
+        role = "widths" if is_params(a, "widths") else "offsets"
         got.add((role, nf(b, cx)))
     want = {(role, nf(e)) for (role, side), e in bounds.items()}
     chk.ob("R01.8", fi.where(t), "the saturation test compares the widths with both width bounds and the offsets with both offset bounds, each written "
